@@ -3,6 +3,7 @@ package props
 import (
 	"encoding/binary"
 	"fmt"
+	"github.com/comdex-official/comdex/app/wasm/bindings"
 	"testing"
 	"time"
 
@@ -458,6 +459,45 @@ func c14Round(t *testing.T, rec *ev.Rec, round int) {
 				rec.Count("sweep_cell_without_work", 1)
 			}
 			r.env("price", "restore", func() { u.setPrice(p.In.Denom, pin, true) })
+		}
+
+		// ---- generation-1 liquidate message under the breaker, whatever app id the message names
+		if app == appHarbor {
+			if _, still := u.snap().Vaults[v.Id]; still {
+				// two apps are on the generation-1 liquidation list, in different breaker states
+				_ = c.Gov(bindings.ComdexMessages{MsgWhitelistAppIDLiquidation: &bindings.MsgWhitelistAppIDLiquidation{AppID: appBeacon}})
+				pin, _ := u.price(p.In)
+				r.env("price", "crash for the generation-1 message cell", func() { u.setPrice(p.In.Denom, pin/4+1, true) })
+				e.setBreaker(app, true)
+				for _, named := range []struct {
+					cls string
+					id  uint64
+				}{{"own-app", app}, {"other-listed-app", appBeacon}, {"unlisted-app", appCswap}} {
+					msg := &liqtypes.MsgLiquidateVaultRequest{From: fresh.Addr.String(), AppId: named.id, VaultId: v.Id}
+					per0, all0 := dumpNoAuth(c, e.keys)
+					res := c.Deliver(fresh, msg)
+					per1, all1 := dumpNoAuth(c, e.keys)
+					rec.Eval(1)
+					rec.Count("breaker_gen1_liquidate_cells_checked", 1)
+					w := map[string]interface{}{"vault": v.Id, "vault_app": app, "app_named_by_the_message": named.id, "code": res.Code, "log": trunc(res.Log)}
+					if _, still := u.snap().Vaults[v.Id]; !still {
+						rec.Violate("C14/breaker/liquidate-message-gen1/seized-under-breaker/message-names-"+named.cls, "an unsafe vault of an app whose breaker is on was seized by a liquidate message", w)
+						break
+					} else if !res.OK() && all0 != all1 {
+						w["stores_changed"] = inject.DiffStores(per0, per1)
+						rec.Violate("C14/breaker/liquidate-message-gen1/refused-but-state-changed", "the refused liquidate message changed state", w)
+					}
+				}
+				e.setBreaker(app, false)
+				if _, still := u.snap().Vaults[v.Id]; still {
+					c.Deliver(fresh, &liqtypes.MsgLiquidateVaultRequest{From: fresh.Addr.String(), AppId: app, VaultId: v.Id})
+					if _, still := u.snap().Vaults[v.Id]; !still {
+						rec.Count("live:breaker/liquidate-message-gen1/unsafe-vault", 1)
+					}
+				}
+				r.env("price", "restore", func() { u.setPrice(p.In.Denom, pin, true) })
+				r.last = u.snap()
+			}
 		}
 
 		// ---- emergency shutdown (cells decided on forks of the same state through the message router)
